@@ -10,7 +10,8 @@
 (* workers share the enumeration).  Building: electricity used by two      *)
 (* services, non-EPB electricity use, PV, a cogenerator (gas or biomass)   *)
 (* whose fuel input is not proportional to its output, a gas boiler,       *)
-(* ambient heat with surplus production, district heat.  In the "quick"    *)
+(* ambient heat with surplus production, district heat, auxiliaries of the *)
+(* boiler and of the cogenerator.  In the "quick"                          *)
 (* tier the configuration (k_exp, area, factor set, fuel) is a covering    *)
 (* function of the values; in the "thorough" tier it is the full product.  *)
 (***************************************************************************)
@@ -68,7 +69,7 @@ PickValues ==
            chv == IF shape.chp THEN chp ELSE Const(0)
            h == H(ua) + 3 * H(ub) + 5 * H(pvv) + 7 * H(chv) + 11 * H(nev) + (IF lm THEN 1 ELSE 0)
        IN /\ (~shape.pv => pv = Const(0)) /\ (~shape.chp => chp = Const(0))
-          /\ (lm => \A t \in 1..n : RatioOK(pvv[t] + chv[t], ua[t] + ub[t]))
+          /\ (lm => \A t \in 1..n : RatioOK(pvv[t] + chv[t], ua[t] + ub[t] + (IF (h \div 3) % 4 \in {0, 2} THEN 1 ELSE 0)))
           /\ \E ki \in 1..4, ai \in 1..2, fi \in 1..4, gi \in 1..2 :
                /\ (Tier = "quick" => /\ ki = (h % 4) + 1 /\ ai = ((h \div 4) % 2) + 1
                                      /\ fi = ((h \div 8) % 4) + 1 /\ gi = ((h \div 32) % 2) + 1)
@@ -88,6 +89,10 @@ PickValues ==
                                           \o <<Used(3, Fuels[gi], "COGEN", [t \in 1..n |-> 2 * chv[t] + t])>> ELSE <<>>)
                     \o (IF shape.th THEN <<Used(4, "EAMBIENTE", "ACS", Const(1)), Prod(4, "EAMBIENTE", [t \in 1..n |-> t]),
                                            Used(5, "RED1", "CAL", Const(1)), Need("ACS", Const(3))>> ELSE <<>>)
+                    \* auxiliary electricity (as it is after the assignment of services: the gas boiler serves CAL only,
+                    \* the cogenerator's only consumption is its fuel): none / boiler / cogenerator / both, by the hash
+                    \o (IF (h \div 3) % 4 \in {0, 2} THEN <<Aux(2, "CAL", Const(1))>> ELSE <<>>)
+                    \o (IF shape.chp /\ (h \div 3) % 4 \in {0, 1} THEN <<Aux(3, "COGEN", [t \in 1..n |-> t])>> ELSE <<>>)
   /\ UNCHANGED <<n, lm, shape, part>>
 
 Next == PickShape \/ PickUse \/ PickValues
